@@ -367,6 +367,9 @@ add("C09", "fixed", "parse-cpu-time:tag:<noname>", "the template lexer backtrack
     "one regex call, so invisible to the step clock and caught by the CPU guard",
     [{"kind": "parse", "source": "{%" + " " * 2000, "mode": "strict"}, {"kind": "parse", "source": "{{" + " " * 2000, "mode": "lax"}, {"kind": "parse", "source": "{% if" + "\t " * 1000, "mode": "strict"}], "6484fd9")
 
+add("C04", "fixed", "reparse-error:symbol-segment", "a quoted path segment made of non-word characters above U+007F (a['\u20ac'], d['\u00d7']) was serialised in dot notation, which does not lex",
+    [c04("{{ a['\u20ac'] }}"), c04("{% if d['\u00d7'] contains 'ab' %}y{% endif %}"), c04("{{ ['a\u2192b'] }}{{ a.\u00e9 }}")], "330d5eb")
+
 if __name__ == "__main__":
     # further entries are appended by tools/mkfindings.py from triaged replay files and kept in findings_extra.json
     extra_path = os.path.join(VERIF, "tools", "findings_extra.json")
